@@ -51,10 +51,17 @@ class Adapter:
         words = [frombytes(w) for w in cfg["init"]]
         # "init" is documented as an iterable of integers: a list, a tuple, or a one-shot iterator / generator
         shape = (rows + nb + len(words) + sum(words)) % 4
-        init = [words, tuple(words), iter(words), (w for w in words)][shape]
         via_setter = (rows + len(words) + sum(words[:2])) % 3 == 0
+        short = list(words)
+        if via_setter:
+            # an image shorter than the memory: the rows it does not cover are zero, whatever image was there before
+            while short and short[-1] == 0:
+                short.pop()
+        init = [short, tuple(short), iter(short), (w for w in short)][shape] if via_setter else \
+               [words, tuple(words), iter(words), (w for w in words)][shape]
+        decoy = [(1 << (8 * nb)) - 1] * rows if (rows + sum(words)) % 4 else ()
         dut = WishboneSRAM(size=rows * nb // gb, data_width=8 * nb, granularity=8 * gb,
-                           writable=bool(cfg["writable"]), init=() if via_setter else init)
+                           writable=bool(cfg["writable"]), init=decoy if via_setter else init)
         if via_setter:
             dut.init = init            # the documented way to load an image after construction
         # what the component reports about itself
